@@ -132,110 +132,59 @@ theorem wordLoads_attempt (inp : Nat → Nat) (pos : Nat) :
   have := wordLoads_range (fun c => inp (pos + c)) SL.N 0
   simpa [SL.attemptCells, List.map_map, Function.comp_def] using this
 
-/-- the local variables at the head of the retry loop: the remaining budget (an `i32` once it has been
-    decremented, an untyped literal before), the generation to confirm, and the reader -/
-def LS (t : IntTy) (k g1 v cg : Nat) (cache : List Nat) (lg : List Value) (pos : Nat) : St :=
-  { env := [("retries", .int t k), ("first_gen", .int .u16 g1), ("generation", refA16 "generation"),
-            ("version", .int .u16 v), ("version", refA16 "version"), ("self", readerValue cg cache)],
-    log := lg, pos := pos }
-
 /-- the context of the statements: the generated tables, the dictionary, the raw input stream -/
 abbrev sctx (nowNs : Int) (sizes : List (String × Nat)) (inp : Nat → Nat) : Ctx :=
   Code.ctxWith nowNs DictShm.ext sizes (rawInp inp)
 
-set_option maxRecDepth 8000 in
-/-- the loop condition `retries > 0` on a positive budget -/
-theorem cond_succ (inp : Nat → Nat) (nowNs : Int) (sizes : List (String × Nat)) (c : Expr) (b : List Stmt)
-    (hcb : findWhile Code.fn_ShmReader__snapshot_stmts = some (c, b))
-    (t : IntTy) (ht : t = .infer ∨ t = .i32) (k g1 v cg : Nat) (cache : List Nat) (lg : List Value) (pos : Nat)
-    (N : Nat) (hN : 30 ≤ N) :
-    eval N (sctx nowNs sizes inp) sfr c (LS t (k + 1) g1 v cg cache lg pos)
-    = .val (.bool true) (LS t (k + 1) g1 v cg cache lg pos) := by
-  simp [rs_eval] at hcb
-  obtain ⟨rfl, rfl⟩ := hcb
-  obtain ⟨M, rfl⟩ := Nat.exists_eq_add_of_le' hN
-  have h : (0 : Int) < (k : Int) + 1 := by omega
-  rcases ht with rfl | rfl <;> simp [rs_eval, LS, sfr, h]
+/-! ### names of the local variables, read off the generated AST (so that a renaming is not a proof change) -/
 
-set_option maxRecDepth 8000 in
-/-- … and on an exhausted one -/
-theorem cond_zero (inp : Nat → Nat) (nowNs : Int) (sizes : List (String × Nat)) (c : Expr) (b : List Stmt)
-    (hcb : findWhile Code.fn_ShmReader__snapshot_stmts = some (c, b))
-    (t : IntTy) (ht : t = .infer ∨ t = .i32) (g1 v cg : Nat) (cache : List Nat) (lg : List Value) (pos : Nat)
-    (N : Nat) (hN : 30 ≤ N) :
-    eval N (sctx nowNs sizes inp) sfr c (LS t 0 g1 v cg cache lg pos)
-    = .val (.bool false) (LS t 0 g1 v cg cache lg pos) := by
-  simp [rs_eval] at hcb
-  obtain ⟨rfl, rfl⟩ := hcb
-  obtain ⟨M, rfl⟩ := Nat.exists_eq_add_of_le' hN
-  rcases ht with rfl | rfl <;> simp [rs_eval, LS, sfr]
+/-- the names bound by the top-level `let x = ..;` statements of a body, in order -/
+def topLets : List Stmt → List String
+  | [] => []
+  | .letS (.bind x) _ _ _ :: rest => x :: topLets rest
+  | _ :: rest => topLets rest
 
-set_option maxRecDepth 8000 in
-set_option maxHeartbeats 2000000 in
-/-- one run of the loop body: the volatile copy, the fence, the re-check; then either the snapshot is
-    accepted (`return Ok(..)` with the cache updated) or the loop goes on with one retry less and, if the
-    generation seen is even, with that generation as the one to confirm -/
-theorem iter_eq (inp : Nat → Nat) (nowNs : Int) (sizes : List (String × Nat)) (c : Expr) (b : List Stmt)
-    (hcb : findWhile Code.fn_ShmReader__snapshot_stmts = some (c, b))
-    (t : IntTy) (ht : t = .infer ∨ t = .i32) (k g1 v cg : Nat) (cache : List Nat) (lg : List Value) (pos : Nat)
-    (hk : k + 1 ≤ 2147483647) (hpos : AttemptPos pos) (N : Nat) (hN : 30 ≤ N) (next : St → Res) :
-    ((evalBlock N (sctx nowNs sizes inp) sfr b (LS t (k + 1) g1 v cg cache lg pos)).popTo
-        (LS t (k + 1) g1 v cg cache lg pos).env.length).loopNext next
-    = if g1 = typedInp inp (pos + SL.N) then
-        .ret (.enumv "Ok" [wordsValue (SL.attemptCells (typedInp inp) pos)])
-          (LS t (k + 1) g1 v g1 (SL.attemptCells (typedInp inp) pos)
-            (lg ++ (SL.attemptAccs {} (typedInp inp) pos).map accValue) (pos + SL.N + 1))
-      else
-        next (LS .i32 k (if typedInp inp (pos + SL.N) % 2 = 0 then typedInp inp (pos + SL.N) else g1) v cg cache
-          (lg ++ (SL.attemptAccs {} (typedInp inp) pos).map accValue) (pos + SL.N + 1)) := by
-  simp [rs_eval] at hcb
-  obtain ⟨rfl, rfl⟩ := hcb
-  obtain ⟨M, rfl⟩ := Nat.exists_eq_add_of_le' hN
-  have hlo : IntTy.lo .i32 ≤ (k : Int) := by show (-2147483648 : Int) ≤ k; omega
-  have hhi : (k : Int) ≤ IntTy.hi .i32 := by show (k : Int) ≤ 2147483647; omega
-  have hchk : ∀ st, chkInt .i32 (k : Int) st = .val (.int .i32 k) st :=
-    fun st => chkInt_ok .i32 k st (by decide) hlo hhi
-  rcases ht with rfl | rfl <;>
-  · simp [rs_eval, rs_code, LS, sfr, rawInp, readerValue, wordsValue, readWords_attempt inp hpos, typedInp_gen2 inp hpos,
-      wordLoads_attempt, hchk, SL.attemptAccs, accValue, locValue, locTy, ordValue]
-    split_ifs <;> simp_all <;> omega
+def nth : List String → Nat → String
+  | [], _ => ""
+  | x :: _, 0 => x
+  | _ :: r, n + 1 => nth r n
 
-/-- the retry loop of the CODE in closed form (same recursion as `SL.readerLoop`, but with the whole
-    interpreter state: needed because the state is what the rest of the function continues with) -/
-def loopOut (tinp : Nat → Nat) (v cg : Nat) (cache : List Nat) : IntTy → Nat → Nat → Nat → List Value → Res
-  | t, 0, pos, g1, lg => .val .unit (LS t 0 g1 v cg cache lg pos)
-  | t, k + 1, pos, g1, lg =>
+/-- the i-th top-level local of `ShmReader::snapshot`: 0 the version cell, 1 the version value, 2 the
+    generation cell, 3 the generation to confirm, 4 (while form only) the retry counter -/
+def nm (i : Nat) : String := nth (topLets Code.fn_ShmReader__snapshot_stmts) i
+
+/-- the first top-level `for` of a body: pattern, iterator, body (`findWhile`'s counterpart) -/
+def findFor : List Stmt → Option (Pat × Expr × List Stmt)
+  | [] => none
+  | s :: rest =>
+    match s with
+    | .expr (.forE p it b) _ => some (p, it, b)
+    | _ => findFor rest
+
+/-! ### the retry loop of the CODE in closed form, generic in how the interpreter state is laid out -/
+
+/-- how a loop state is built from: remaining budget, generation to confirm, cached generation, cached
+    record, log, position in the input stream -/
+abbrev MkSt := Nat → Nat → Nat → List Nat → List Value → Nat → St
+
+/-- same recursion as `SL.readerLoop`, but with the whole interpreter state (`mk` lays out the first
+    iteration, `mk'` the later ones: the `while` form changes the type of its counter after the first
+    `retries -= 1`) -/
+def loopOutG (tinp : Nat → Nat) (cg : Nat) (cache : List Nat) (mk' : MkSt) : MkSt → Nat → Nat → Nat → List Value → Res
+  | mk, 0, pos, g1, lg => .val .unit (mk 0 g1 cg cache lg pos)
+  | mk, k + 1, pos, g1, lg =>
     if g1 = tinp (pos + SL.N) then
       .ret (.enumv "Ok" [wordsValue (SL.attemptCells tinp pos)])
-        (LS t (k + 1) g1 v g1 (SL.attemptCells tinp pos) (lg ++ (SL.attemptAccs {} tinp pos).map accValue)
+        (mk (k + 1) g1 g1 (SL.attemptCells tinp pos) (lg ++ (SL.attemptAccs {} tinp pos).map accValue)
           (pos + SL.N + 1))
     else
-      loopOut tinp v cg cache .i32 k (pos + SL.N + 1) (if tinp (pos + SL.N) % 2 = 0 then tinp (pos + SL.N) else g1)
+      loopOutG tinp cg cache mk' mk' k (pos + SL.N + 1) (if tinp (pos + SL.N) % 2 = 0 then tinp (pos + SL.N) else g1)
         (lg ++ (SL.attemptAccs {} tinp pos).map accValue)
 
-/-- the loop of `ShmReader::snapshot` with a budget of `k` retries, for every fuel ≥ `k + 31` -/
-theorem loop_eq (inp : Nat → Nat) (nowNs : Int) (sizes : List (String × Nat)) (c : Expr) (b : List Stmt)
-    (hcb : findWhile Code.fn_ShmReader__snapshot_stmts = some (c, b)) (v cg : Nat) (cache : List Nat) :
-    ∀ k, k ≤ 2147483647 → ∀ t, (t = .infer ∨ t = .i32) → ∀ pos, AttemptPos pos → ∀ g1 lg N, k + 31 ≤ N →
-      evalWhile N (sctx nowNs sizes inp) sfr c b (LS t k g1 v cg cache lg pos)
-      = loopOut (typedInp inp) v cg cache t k pos g1 lg := by
-  intro k
-  induction k with
-  | zero =>
-    intro _ t ht pos _ g1 lg N hN
-    obtain ⟨M, rfl⟩ : ∃ M, N = M + 1 := ⟨N - 1, by omega⟩
-    rw [evalWhile_succ, cond_zero inp nowNs sizes c b hcb t ht g1 v cg cache lg pos M (by omega)]
-    simp [loopOut, LS, St.popTo, Res.bind_val]
-  | succ k ih =>
-    intro hk t ht pos hpos g1 lg N hN
-    obtain ⟨M, rfl⟩ : ∃ M, N = M + 1 := ⟨N - 1, by omega⟩
-    rw [evalWhile_succ, cond_succ inp nowNs sizes c b hcb t ht k g1 v cg cache lg pos M (by omega)]
-    simp only [Res.bind_val, if_true]
-    rw [iter_eq inp nowNs sizes c b hcb t ht k g1 v cg cache lg pos hk hpos M (by omega)]
-    rw [loopOut]
-    split
-    · rfl
-    · exact ih (by omega) .i32 (Or.inr rfl) _ hpos.next _ _ M (by omega)
+/-- a layout that keeps the reader in `self` and the log where the rest of the function looks for them -/
+def GoodMk (mk : MkSt) : Prop :=
+  ∀ k g1 cg cache lg pos, envGet (mk k g1 cg cache lg pos).env "self" = some (readerValue cg cache) ∧
+    (mk k g1 cg cache lg pos).log = lg
 
 /-- what the rest of `snapshot` needs to know about the outcome of the loop, in terms of the MODEL's
     `SL.readerLoop`: accepted — a `return Ok(&snapshot_ceb)` with the cache updated; budget used up — the
@@ -247,23 +196,23 @@ def LoopPost (r : Res) (lg : List Value) (cg : Nat) (cache : List Nat) : List SL
   | (accs, none) =>
     ∃ st', r = .val .unit st' ∧ envGet st'.env "self" = some (readerValue cg cache) ∧ st'.log = lg ++ accs.map accValue
 
-theorem loopOut_spec (tinp : Nat → Nat) (v cg : Nat) (cache : List Nat) :
-    ∀ k t pos g1 lg r, loopOut tinp v cg cache t k pos g1 lg = r →
+theorem loopOutG_spec (tinp : Nat → Nat) (cg : Nat) (cache : List Nat) (mk' : MkSt) (hmk' : GoodMk mk') :
+    ∀ k mk, GoodMk mk → ∀ pos g1 lg r, loopOutG tinp cg cache mk' mk k pos g1 lg = r →
       LoopPost r lg cg cache (SL.readerLoop {} tinp k pos g1) := by
   intro k
   induction k with
   | zero =>
-    intro t pos g1 lg r h
+    intro mk hmk pos g1 lg r h
     subst h
-    simp [SL.readerLoop, LoopPost, loopOut, LS, envGet]
+    simp [SL.readerLoop, LoopPost, loopOutG, hmk 0 g1 cg cache lg pos]
   | succ k ih =>
-    intro t pos g1 lg r h
+    intro mk hmk pos g1 lg r h
     subst h
-    rw [loopOut, SL.readerLoop]
+    rw [loopOutG, SL.readerLoop]
     simp only
     split
-    · simp [LoopPost, LS, envGet]
-    · have := ih .i32 (pos + SL.N + 1) (if tinp (pos + SL.N) % 2 = 0 then tinp (pos + SL.N) else g1)
+    · exact ⟨_, rfl, (hmk _ _ _ _ _ _).1, (hmk _ _ _ _ _ _).2⟩
+    · have := ih mk' hmk' (pos + SL.N + 1) (if tinp (pos + SL.N) % 2 = 0 then tinp (pos + SL.N) else g1)
         (lg ++ (SL.attemptAccs {} tinp pos).map accValue) _ rfl
       rcases hrl : SL.readerLoop {} tinp k (pos + SL.N + 1) (if tinp (pos + SL.N) % 2 = 0 then tinp (pos + SL.N) else g1)
         with ⟨accs, _ | ⟨g', cells⟩⟩
@@ -273,38 +222,6 @@ theorem loopOut_spec (tinp : Nat → Nat) (v cg : Nat) (cache : List Nat) :
       · rw [hrl] at this
         obtain ⟨st', h1, h2, h3⟩ := this
         exact ⟨st', h1, h2, by simp [h3]⟩
-
-set_option maxRecDepth 8000 in
-set_option maxHeartbeats 2000000 in
-/-- `ShmReader::snapshot` is `SL.readerProg`, for every stream of load results, every cache, every fuel
-    ≥ RETRIES + 200 -/
-theorem snapshot_tie (inp : Nat → Nat) (cg : Nat) (cache : List Nat) (nowNs : Int) (sizes : List (String × Nat))
-    (F : Nat) (hF : SL.RETRIES ≤ F) :
-    runFuel (F + 200) (sctx nowNs sizes inp) "ShmReader::snapshot" (readerValue cg cache) []
-    = readerOutcome (SL.readerProg {} (typedInp inp) cg cache) := by
-  -- the source literal `1_000_000` is the model's RETRIES (the only place where RETRIES is unfolded)
-  have hR : ((SL.RETRIES : Nat) : Int) = 1000000 := rfl
-  have hR2 : SL.RETRIES ≤ 2147483647 := by decide
-  have hloop := loop_eq inp nowNs sizes _ _ rfl (typedInp inp 0) cg cache SL.RETRIES hR2 .infer (Or.inl rfl)
-    2 ⟨0, rfl⟩ (typedInp inp 1)
-  simp only [LS, sfr, hR, readerValue, wordsValue, rs_eval] at hloop
-  -- the function up to the loop: version load, generation load, the three early returns
-  simp [rs_eval, rs_code, readerValue, wordsValue, rawInp, typedInp_0, typedInp_1]
-  rw [hloop _ _ (by omega)]
-  -- the loop, and the rest of the function on its two kinds of outcome
-  generalize hL : loopOut _ _ _ _ _ _ _ _ _ = r
-  have hs := loopOut_spec _ _ _ _ _ _ _ _ _ _ hL
-  clear hL hloop hR hR2 hF
-  simp only [SL.readerProg, readerOutcome]
-  rcases hrl : SL.readerLoop {} (typedInp inp) SL.RETRIES 2 (typedInp inp 1) with ⟨accs, _ | ⟨g', cells⟩⟩
-  · rw [hrl] at hs
-    obtain ⟨st', rfl, h2, h3⟩ := hs
-    simp [rs_eval, h2, h3, resultValue, readerValue, wordsValue]
-    split_ifs <;> simp_all [accValue, locValue, locTy, ordValue, ordering] <;> omega
-  · rw [hrl] at hs
-    obtain ⟨st', rfl, h2, h3⟩ := hs
-    simp [rs_eval, h2, h3, resultValue, readerValue, wordsValue]
-    split_ifs <;> simp_all [accValue, locValue, locTy, ordValue, ordering] <;> omega
 
 /-- a well-typed stream of load results is not changed by the reduction to the width of the locations -/
 theorem typedInp_id (inp : Nat → Nat) (h : ∀ k, inp k < loadCard k) : typedInp inp = inp := by
